@@ -6,8 +6,8 @@
 //! lane: on_update / on_remove / on_clear with the previous entry / contents), then the handler resumes.
 //! A failure (or a stop instruction) unwinds the whole chain of interrupted handlers.
 
-use crate::agent::{Rec, Top};
-use crate::ast::{arm_of, is_value, to_val, try_fails, How, Obs, Src, Tables, HK, P, V};
+use crate::agent::{burst_step, Rec, Top};
+use crate::ast::{arm_of, is_value, to_val, try_fails, xform, How, Obs, Src, Tables, HK, P, V};
 use serde::{Deserialize, Serialize};
 use std::collections::BTreeMap;
 
@@ -51,6 +51,10 @@ pub enum Cmd {
     Upd { lane: u8, k: i32, v: i32 },
     Rem { lane: u8, k: i32 },
     Clr { lane: u8 },
+    /// `@drop(n)`: remove the first n keys (in key order).
+    Drop { lane: u8, n: u32 },
+    /// `@take(n)`: keep the first n keys, remove the others (in key order).
+    Take { lane: u8, n: u32 },
 }
 
 /// What started a block.
@@ -87,6 +91,8 @@ pub struct Stats {
     pub mutations: usize,
     pub spawns: usize,
     pub branches: usize,
+    pub transforms: usize,
+    pub burst: bool,
     /// Executed and_then / and_then_contextual / and_then_try nodes.
     pub binds: [usize; 3],
     pub computed_mutations: usize,
@@ -99,7 +105,7 @@ pub struct Stats {
     pub same_value_sets: usize,
 }
 
-pub const RECORD_BUDGET: usize = 4000;
+pub const RECORD_BUDGET: usize = 30000;
 
 /// The handlers a lane mutation triggers (with the arguments they receive).
 #[derive(Clone, Debug, PartialEq, Eq)]
@@ -200,6 +206,7 @@ fn vdepth(v: &V) -> usize {
 fn mutates_before_end(p: &P) -> bool {
     match p {
         P::Set { .. } | P::Upd { .. } | P::Rem { .. } | P::Clr { .. } | P::MutV { .. } => true,
+        P::XformV { .. } | P::XformE { .. } | P::Replace { .. } | P::Burst { .. } => true,
         P::Seq(ps) => ps.iter().any(mutates_before_end),
         P::Then(a, b) => mutates_before_end(a) || mutates_before_end(b),
         P::Branch { arms, .. } => arms.iter().any(mutates_before_end),
@@ -563,6 +570,44 @@ impl<'a> Ref<'a> {
                 self.run(b, fs, depth, tp)
             }
             P::Set { .. } | P::Upd { .. } | P::Rem { .. } | P::Clr { .. } => self.mutate(p, fs, depth, tp),
+            P::XformV { lane, add } => {
+                // with_value(f).and_then(set)
+                let cur = self.model.v[(*lane / 2) as usize];
+                self.mutate(&P::Set { lane: *lane, v: to_val(cur as i64, *add) }, fs, depth, tp)
+            }
+            P::XformE { lane, k, op, c } => {
+                self.stats.transforms += 1;
+                let cur = self.model.m[(*lane / 2) as usize].get(k).copied();
+                match (cur, xform(*op, cur, *c)) {
+                    (_, Some(n)) => self.mutate(&P::Upd { lane: *lane, k: *k, v: n }, fs, depth, tp),
+                    (Some(_), None) => self.mutate(&P::Rem { lane: *lane, k: *k }, fs, depth, tp),
+                    // absent and unchanged: no modification is reported at all
+                    (None, None) => Flow::Done,
+                }
+            }
+            P::Replace { lane, entries } => {
+                let mut steps = vec![P::Clr { lane: *lane }];
+                steps.extend(entries.iter().map(|(k, v)| P::Upd { lane: *lane, k: *k, v: *v }));
+                let n = steps.len();
+                // clear.followed_by(Sequentially(updates)); an empty Sequentially completes without a modification
+                for (i, s) in steps.iter().enumerate() {
+                    let f = self.mutate(s, fs, depth, tp && n > 1 && i + 1 == n);
+                    if f != Flow::Done {
+                        return f;
+                    }
+                }
+                Flow::Done
+            }
+            P::Burst { lane, n, v } => {
+                self.stats.burst = true;
+                for i in 0..*n {
+                    let f = self.mutate(&burst_step(*lane, i, *v), fs, depth, tp && i + 1 == *n);
+                    if f != Flow::Done {
+                        return f;
+                    }
+                }
+                Flow::Done
+            }
             P::Discard(v) => self.eval(v, fs, depth, tp).0,
             P::Branch { first, how, arms } => {
                 self.stats.branches += 1;
@@ -596,6 +641,15 @@ impl<'a> Ref<'a> {
         }
     }
 
+    /// The keys a `@drop(n)` / `@take(n)` removes from the current model, in removal order.
+    pub fn drop_take_keys(&self, c: &Cmd) -> Vec<i32> {
+        match c {
+            Cmd::Drop { lane, n } => self.model.m[(*lane / 2) as usize].keys().take(*n as usize).copied().collect(),
+            Cmd::Take { lane, n } => self.model.m[(*lane / 2) as usize].keys().skip(*n as usize).copied().collect(),
+            _ => vec![],
+        }
+    }
+
     /// Execute one block from the current model state; returns the expected records.
     pub fn block(&mut self, trig: &Trigger) -> (Vec<Rec>, Flow, Vec<u16>) {
         self.out.clear();
@@ -626,6 +680,18 @@ impl<'a> Ref<'a> {
             Trigger::Ext(Cmd::Upd { lane, k, v }) => self.mutate(&P::Upd { lane: *lane, k: *k, v: *v }, &mut fs, 0, false),
             Trigger::Ext(Cmd::Rem { lane, k }) => self.mutate(&P::Rem { lane: *lane, k: *k }, &mut fs, 0, false),
             Trigger::Ext(Cmd::Clr { lane }) => self.mutate(&P::Clr { lane: *lane }, &mut fs, 0, false),
+            Trigger::Ext(c @ (Cmd::Drop { lane, .. } | Cmd::Take { lane, .. })) => {
+                // the keys are listed once (map_storage::drop_or_take, ascending key order), then removed one by one
+                // by the same handler; every removal reports its own modification
+                let mut f = Flow::Done;
+                for k in self.drop_take_keys(c) {
+                    f = self.mutate(&P::Rem { lane: *lane, k }, &mut fs, 0, false);
+                    if f != Flow::Done {
+                        break;
+                    }
+                }
+                f
+            }
         };
         if self.overflow {
             flow = Flow::Overflow;
@@ -660,6 +726,9 @@ pub fn worst_case_records(t: &Tables, runs: &[u16], ext_muts: usize) -> u64 {
             P::Seq(ps) => ps.iter().fold(0u64, |a, q| a.saturating_add(cost(q, lane_cost, spawn_cost))),
             P::Then(a, b) => cost(a, lane_cost, spawn_cost).saturating_add(cost(b, lane_cost, spawn_cost)),
             P::Set { lane, .. } | P::Upd { lane, .. } | P::Rem { lane, .. } | P::Clr { lane } => lane_cost[*lane as usize],
+            P::XformV { lane, .. } | P::XformE { lane, .. } => lane_cost[*lane as usize],
+            P::Replace { lane, entries } => lane_cost[*lane as usize].saturating_mul(1 + entries.len() as u64),
+            P::Burst { lane, n, .. } => lane_cost[*lane as usize].saturating_mul(*n as u64),
             P::Eff(_) => 1,
             P::Discard(v) => vcost(v, lane_cost, spawn_cost),
             P::Branch { first, arms, .. } => vcost(first, lane_cost, spawn_cost)
@@ -769,6 +838,81 @@ fn mismatch_sig(exp: &Rec, got: Option<&Rec>) -> String {
     }
 }
 
+/// One explanation attempt for a block: the documented execution and, if that differs from the observed records and
+/// the block contains a closure-in-the-same-step site, the variants that mirror the implementation there.
+struct Attempt {
+    exp: Vec<Rec>,
+    doc_exp: Vec<Rec>,
+    flow: Flow,
+    spawned: Vec<u16>,
+    /// Finding signatures under which the block is explained (empty: documented execution).
+    quirks: Vec<Quirk>,
+    model: Model,
+    /// First differing record when nothing explains the block (of the variant that agrees longest).
+    bad: Option<usize>,
+    overflow: bool,
+    saw_tail: bool,
+}
+
+fn attempt(r: &mut Ref, trig: &Trigger, start_model: &Model, trace: &[Rec], pos: usize) -> Attempt {
+    let first_diff = |exp: &[Rec]| -> Option<usize> { (0..exp.len()).find(|i| trace.get(pos + i) != Some(&exp[*i])) };
+    r.model = start_model.clone();
+    r.quirk_mode = QuirkSet::default();
+    let (exp, flow, spawned) = r.block(trig);
+    let saw_tail = r.saw_tail_modification;
+    let mut at = Attempt {
+        doc_exp: exp.clone(),
+        bad: first_diff(&exp),
+        exp,
+        flow,
+        spawned,
+        quirks: vec![],
+        model: r.model.clone(),
+        overflow: flow == Flow::Overflow,
+        saw_tail,
+    };
+    if at.overflow || at.bad.is_none() || !saw_tail {
+        return at;
+    }
+    // Of the variants that explain the observed records the longest one is taken (an aborted block is a prefix of
+    // anything); when nothing explains the block, the variant that agrees with the observed records longest is reported.
+    let mut best: Option<(Vec<Rec>, Flow, Vec<u16>, Vec<Quirk>, Model, usize)> = None;
+    for qs in QuirkSet::all_nonempty() {
+        r.model = start_model.clone();
+        r.quirk_mode = qs;
+        let (e2, f2, s2) = r.block(trig);
+        if f2 == Flow::Overflow {
+            continue;
+        }
+        if let Some(i) = first_diff(&e2) {
+            if best.is_none() && i > at.bad.unwrap_or(0) {
+                at.bad = Some(i);
+                at.exp = e2;
+            }
+            continue;
+        }
+        let better = match &best {
+            None => true,
+            Some((e, _, _, _, _, n)) => e2.len() > e.len() || (e2.len() == e.len() && qs.count() < *n),
+        };
+        if better {
+            best = Some((e2, f2, s2, r.quirks.clone(), r.model.clone(), qs.count()));
+        }
+    }
+    r.quirk_mode = QuirkSet::default();
+    if let Some((e2, f2, s2, mut qs, model, _)) = best {
+        qs.sort();
+        qs.dedup();
+        at.exp = e2;
+        at.flow = f2;
+        at.spawned = s2;
+        at.quirks = qs;
+        at.model = model;
+        at.bad = None;
+    }
+    at
+}
+
 /// Check an observed trace against the reference, block by block, following the observed block order.
 /// `sent` = every command any remote queued (an upper bound on what can have been processed).
 pub fn verify(t: &Tables, trace: &[Rec], sent: &[Cmd], outcome: &Outcome) -> Report {
@@ -868,6 +1012,51 @@ pub fn verify(t: &Tables, trace: &[Rec], sent: &[Cmd], outcome: &Outcome) -> Rep
         }
         // (implementation mirror) a map handler at top level that no command explains may be the stale event of
         // a dropped modification, consumed by a remote's removal of an absent key
+        // A top-level on_remove may be the first removal of a `@drop(n)` / `@take(n)` as well as a `@remove`: take the
+        // available command that explains most of the following records; it is consumed only if it is the only one
+        // that explains them.
+        let mut ambiguous = false;
+        let trig = match (&trig, first) {
+            (Trigger::Ext(Cmd::Rem { lane, k }), Rec::OnRemove { .. }) => {
+                let (lane, k) = (*lane, *k);
+                let mut cands: Vec<Cmd> = avail
+                    .iter()
+                    .filter(|(c, n)| {
+                        **n > 0
+                            && match c {
+                                Cmd::Rem { lane: l, k: k2 } => *l == lane && *k2 == k,
+                                Cmd::Drop { lane: l, .. } | Cmd::Take { lane: l, .. } => *l == lane && r.drop_take_keys(c).first() == Some(&k),
+                                _ => false,
+                            }
+                    })
+                    .map(|(c, _)| c.clone())
+                    .collect();
+                if cands.len() <= 1 && matches!(cands.first(), None | Some(Cmd::Rem { .. })) {
+                    trig
+                } else {
+                    let start_model = r.model.clone();
+                    let mut best: Option<(usize, Cmd)> = None;
+                    let mut explained = 0;
+                    for c in cands.drain(..) {
+                        let at = attempt(&mut r, &Trigger::Ext(c.clone()), &start_model, trace, pos);
+                        if at.overflow || at.bad.is_some() {
+                            continue;
+                        }
+                        explained += 1;
+                        if best.as_ref().map(|(n, _)| at.exp.len() > *n).unwrap_or(true) {
+                            best = Some((at.exp.len(), c));
+                        }
+                    }
+                    r.model = start_model;
+                    ambiguous = explained > 1;
+                    match best {
+                        Some((_, c)) => Trigger::Ext(c),
+                        None => trig,
+                    }
+                }
+            }
+            _ => trig,
+        };
         // Which of several removals of absent keys fired the stale event cannot be told from the trace (they are all
         // invisible otherwise), so the substitute only has to exist; it is not consumed.
         let mut stale_substitute = false;
@@ -921,7 +1110,7 @@ pub fn verify(t: &Tables, trace: &[Rec], sent: &[Cmd], outcome: &Outcome) -> Rep
                     broken = true;
                     break;
                 }
-                if !stale_substitute {
+                if !stale_substitute && !ambiguous {
                     *n -= 1;
                 }
                 if matches!(cmd, Cmd::Run(_)) {
@@ -946,79 +1135,31 @@ pub fn verify(t: &Tables, trace: &[Rec], sent: &[Cmd], outcome: &Outcome) -> Rep
         }
         // --- expected records of this block from the model state at its start
         let start_model = r.model.clone();
-        r.quirk_mode = QuirkSet::default();
-        let (mut exp, mut flow, mut spawned) = r.block(&trig);
-        if flow == Flow::Overflow {
+        let at = attempt(&mut r, &trig, &start_model, trace, pos);
+        if at.overflow {
             rep.overflow = true;
             broken = true;
             break;
         }
         rep.blocks += 1;
-        rep.quirk_sites += r.saw_tail_modification as usize;
-        let first_diff = |exp: &[Rec]| -> Option<usize> { (0..exp.len()).find(|i| trace.get(pos + i) != Some(&exp[*i])) };
-        let mut bad = first_diff(&exp);
-        if bad.is_some() && r.saw_tail_modification {
-            // The block contains a site where the implementation evaluates a continuation closure in the step in
-            // which the first operand completed with a lane modification. Does the observed trace equal the
-            // execution that mirrors the implementation at (some of) the three kinds of site? Of the variants
-            // that explain the observed records the longest one is taken (an aborted block is a prefix of
-            // anything).
-            let doc_model = r.model.clone();
-            // when nothing explains the block, report the variant that agrees with the observed records longest
-            let mut closest: (usize, Vec<Rec>) = (bad.unwrap_or(0), exp.clone());
-            let mut best: Option<(Vec<Rec>, Flow, Vec<u16>, Vec<Quirk>, Model, usize)> = None;
-            for qs in QuirkSet::all_nonempty() {
-                r.model = start_model.clone();
-                r.quirk_mode = qs;
-                let (e2, f2, s2) = r.block(&trig);
-                if f2 == Flow::Overflow {
-                    continue;
-                }
-                if let Some(i) = first_diff(&e2) {
-                    if i > closest.0 {
-                        closest = (i, e2);
-                    }
-                    continue;
-                }
-                let better = match &best {
-                    None => true,
-                    Some((e, _, _, _, _, n)) => e2.len() > e.len() || (e2.len() == e.len() && qs.count() < *n),
-                };
-                if better {
-                    best = Some((e2, f2, s2, r.quirks.clone(), r.model.clone(), qs.count()));
-                }
+        rep.quirk_sites += at.saw_tail as usize;
+        if at.bad.is_none() && !at.quirks.is_empty() {
+            for q in &at.quirks {
+                fail!(
+                    q.sig(),
+                    "block {:?} starting at {}: the observed records equal the execution in which the continuation closure is \
+                     evaluated in the same step as the first operand's final lane modification (before / instead of the handlers \
+                     that modification triggers), not the documented depth-first order.\n documented = {:?}\n observed   = {:?}",
+                    trig,
+                    pos,
+                    at.doc_exp,
+                    at.exp
+                );
             }
-            r.quirk_mode = QuirkSet::default();
-            match best {
-                Some((e2, f2, s2, mut qs, model, _)) => {
-                    qs.sort();
-                    qs.dedup();
-                    for q in qs {
-                        fail!(
-                            q.sig(),
-                            "block {:?} starting at {}: the observed records equal the execution in which the continuation closure is \
-                             evaluated in the same step as the first operand's final lane modification (before / instead of the handlers \
-                             that modification triggers), not the documented depth-first order.\n documented = {:?}\n observed   = {:?}",
-                            trig,
-                            pos,
-                            exp,
-                            e2
-                        );
-                    }
-                    rep.quirk_blocks += 1;
-                    r.model = model;
-                    exp = e2;
-                    flow = f2;
-                    spawned = s2;
-                    bad = None;
-                }
-                None => {
-                    r.model = doc_model;
-                    bad = Some(closest.0);
-                    exp = closest.1;
-                }
-            }
+            rep.quirk_blocks += 1;
         }
+        r.model = at.model;
+        let (exp, flow, spawned, bad) = (at.exp, at.flow, at.spawned, at.bad);
         if let Some(i) = bad {
             let e = exp[i].clone();
             let g = trace.get(pos + i).cloned();
